@@ -36,7 +36,14 @@ func (d *DeterministicSampler) Start() error {
 	// Get the actual upper bound - the largest possible value divided by
 	// the sample rate. In the case where the sample rate is 1, this should
 	// sample every value.
-	d.upperBound = math.MaxUint32 / uint32(d.sampleRate)
+	// Rates of 0 or 1 keep everything (see GetSampleRate) and rates that do not fit
+	// in 32 bits would be truncated by the conversion, possibly to 0.
+	d.upperBound = math.MaxUint32
+	if uint64(d.sampleRate) > math.MaxUint32 {
+		d.upperBound = 0
+	} else if d.sampleRate > 1 {
+		d.upperBound = math.MaxUint32 / uint32(d.sampleRate)
+	}
 
 	return nil
 }
